@@ -154,6 +154,156 @@ theorem calcTransport_WriteByte_unchanged : Facts.calcTransport_WriteByte = ["fu
 
 theorem calcTransport_WriteString_unchanged : Facts.calcTransport_WriteString = ["func(s string) (int, error)", "p.count += int32(len(s))", "return len(s), nil"] := rfl
 
+theorem m3v2_MetricValue_Read_unchanged : Facts.m3v2_MetricValue_Read = ["func(iprot thrift.TProtocol) error", "if _, err := iprot.ReadStructBegin(); err != nil { return thrift.PrependError(fmt.Sprintf(\"%T read error: \", p), err) }", "var issetMetricType bool = false", "var issetCount bool = false", "var issetGauge bool = false", "var issetTimer bool = false", "for { _, fieldTypeId, fieldId, err := iprot.ReadFieldBegin() if err != nil { return thrift.PrependError(fmt.Sprintf(\"%T field %d read error: \", p, fieldId), err) } if fieldTypeId == thrift.STOP { break } switch fieldId { case 1: if err := p.readField1(iprot); err != nil { return err } issetMetricType = true case 2: if err := p.readField2(iprot); err != nil { return err } issetCount = true case 3: if err := p.readField3(iprot); err != nil { return err } issetGauge = true case 4: if err := p.readField4(iprot); err != nil { return err } issetTimer = true default: if err := iprot.Skip(fieldTypeId); err != nil { return err } } if err := iprot.ReadFieldEnd(); err != nil { return err } }", "if err := iprot.ReadStructEnd(); err != nil { return thrift.PrependError(fmt.Sprintf(\"%T read struct end error: \", p), err) }", "if !issetMetricType { return thrift.NewTProtocolExceptionWithType(thrift.INVALID_DATA, fmt.Errorf(\"Required field MetricType is not set\")) }", "if !issetCount { return thrift.NewTProtocolExceptionWithType(thrift.INVALID_DATA, fmt.Errorf(\"Required field Count is not set\")) }", "if !issetGauge { return thrift.NewTProtocolExceptionWithType(thrift.INVALID_DATA, fmt.Errorf(\"Required field Gauge is not set\")) }", "if !issetTimer { return thrift.NewTProtocolExceptionWithType(thrift.INVALID_DATA, fmt.Errorf(\"Required field Timer is not set\")) }", "return nil"] := rfl
+
+theorem m3v2_MetricValue_readField1_unchanged : Facts.m3v2_MetricValue_readField1 = ["func(iprot thrift.TProtocol) error", "if v, err := iprot.ReadI32(); err != nil { return thrift.PrependError(\"error reading field 1: \", err) } else { temp := MetricType(v) p.MetricType = temp }", "return nil"] := rfl
+
+theorem m3v2_MetricValue_readField2_unchanged : Facts.m3v2_MetricValue_readField2 = ["func(iprot thrift.TProtocol) error", "if v, err := iprot.ReadI64(); err != nil { return thrift.PrependError(\"error reading field 2: \", err) } else { p.Count = v }", "return nil"] := rfl
+
+theorem m3v2_MetricValue_readField3_unchanged : Facts.m3v2_MetricValue_readField3 = ["func(iprot thrift.TProtocol) error", "if v, err := iprot.ReadDouble(); err != nil { return thrift.PrependError(\"error reading field 3: \", err) } else { p.Gauge = v }", "return nil"] := rfl
+
+theorem m3v2_MetricValue_readField4_unchanged : Facts.m3v2_MetricValue_readField4 = ["func(iprot thrift.TProtocol) error", "if v, err := iprot.ReadI64(); err != nil { return thrift.PrependError(\"error reading field 4: \", err) } else { p.Timer = v }", "return nil"] := rfl
+
+theorem m3v2_MetricTag_Read_unchanged : Facts.m3v2_MetricTag_Read = ["func(iprot thrift.TProtocol) error", "if _, err := iprot.ReadStructBegin(); err != nil { return thrift.PrependError(fmt.Sprintf(\"%T read error: \", p), err) }", "var issetName bool = false", "var issetValue bool = false", "for { _, fieldTypeId, fieldId, err := iprot.ReadFieldBegin() if err != nil { return thrift.PrependError(fmt.Sprintf(\"%T field %d read error: \", p, fieldId), err) } if fieldTypeId == thrift.STOP { break } switch fieldId { case 1: if err := p.readField1(iprot); err != nil { return err } issetName = true case 2: if err := p.readField2(iprot); err != nil { return err } issetValue = true default: if err := iprot.Skip(fieldTypeId); err != nil { return err } } if err := iprot.ReadFieldEnd(); err != nil { return err } }", "if err := iprot.ReadStructEnd(); err != nil { return thrift.PrependError(fmt.Sprintf(\"%T read struct end error: \", p), err) }", "if !issetName { return thrift.NewTProtocolExceptionWithType(thrift.INVALID_DATA, fmt.Errorf(\"Required field Name is not set\")) }", "if !issetValue { return thrift.NewTProtocolExceptionWithType(thrift.INVALID_DATA, fmt.Errorf(\"Required field Value is not set\")) }", "return nil"] := rfl
+
+theorem m3v2_MetricTag_readField1_unchanged : Facts.m3v2_MetricTag_readField1 = ["func(iprot thrift.TProtocol) error", "if v, err := iprot.ReadString(); err != nil { return thrift.PrependError(\"error reading field 1: \", err) } else { p.Name = v }", "return nil"] := rfl
+
+theorem m3v2_MetricTag_readField2_unchanged : Facts.m3v2_MetricTag_readField2 = ["func(iprot thrift.TProtocol) error", "if v, err := iprot.ReadString(); err != nil { return thrift.PrependError(\"error reading field 2: \", err) } else { p.Value = v }", "return nil"] := rfl
+
+theorem m3v2_Metric_Read_unchanged : Facts.m3v2_Metric_Read = ["func(iprot thrift.TProtocol) error", "if _, err := iprot.ReadStructBegin(); err != nil { return thrift.PrependError(fmt.Sprintf(\"%T read error: \", p), err) }", "var issetName bool = false", "var issetValue bool = false", "var issetTimestamp bool = false", "for { _, fieldTypeId, fieldId, err := iprot.ReadFieldBegin() if err != nil { return thrift.PrependError(fmt.Sprintf(\"%T field %d read error: \", p, fieldId), err) } if fieldTypeId == thrift.STOP { break } switch fieldId { case 1: if err := p.readField1(iprot); err != nil { return err } issetName = true case 2: if err := p.readField2(iprot); err != nil { return err } issetValue = true case 3: if err := p.readField3(iprot); err != nil { return err } issetTimestamp = true case 4: if err := p.readField4(iprot); err != nil { return err } default: if err := iprot.Skip(fieldTypeId); err != nil { return err } } if err := iprot.ReadFieldEnd(); err != nil { return err } }", "if err := iprot.ReadStructEnd(); err != nil { return thrift.PrependError(fmt.Sprintf(\"%T read struct end error: \", p), err) }", "if !issetName { return thrift.NewTProtocolExceptionWithType(thrift.INVALID_DATA, fmt.Errorf(\"Required field Name is not set\")) }", "if !issetValue { return thrift.NewTProtocolExceptionWithType(thrift.INVALID_DATA, fmt.Errorf(\"Required field Value is not set\")) }", "if !issetTimestamp { return thrift.NewTProtocolExceptionWithType(thrift.INVALID_DATA, fmt.Errorf(\"Required field Timestamp is not set\")) }", "return nil"] := rfl
+
+theorem m3v2_Metric_readField1_unchanged : Facts.m3v2_Metric_readField1 = ["func(iprot thrift.TProtocol) error", "if v, err := iprot.ReadString(); err != nil { return thrift.PrependError(\"error reading field 1: \", err) } else { p.Name = v }", "return nil"] := rfl
+
+theorem m3v2_Metric_readField2_unchanged : Facts.m3v2_Metric_readField2 = ["func(iprot thrift.TProtocol) error", "p.Value = MetricValue{}", "if err := p.Value.Read(iprot); err != nil { return thrift.PrependError(fmt.Sprintf(\"%T error reading struct: \", p.Value), err) }", "return nil"] := rfl
+
+theorem m3v2_Metric_readField3_unchanged : Facts.m3v2_Metric_readField3 = ["func(iprot thrift.TProtocol) error", "if v, err := iprot.ReadI64(); err != nil { return thrift.PrependError(\"error reading field 3: \", err) } else { p.Timestamp = v }", "return nil"] := rfl
+
+theorem m3v2_Metric_readField4_unchanged : Facts.m3v2_Metric_readField4 = ["func(iprot thrift.TProtocol) error", "_, size, err := iprot.ReadListBegin()", "if err != nil { return thrift.PrependError(\"error reading list begin: \", err) }", "tSlice := make([]MetricTag, 0, size)", "p.Tags = tSlice", "for i := 0; i < size; i++ { _elem0 := MetricTag{} if err := _elem0.Read(iprot); err != nil { return thrift.PrependError(fmt.Sprintf(\"%T error reading struct: \", _elem0), err) } p.Tags = append(p.Tags, _elem0) }", "if err := iprot.ReadListEnd(); err != nil { return thrift.PrependError(\"error reading list end: \", err) }", "return nil"] := rfl
+
+theorem m3v2_MetricBatch_Read_unchanged : Facts.m3v2_MetricBatch_Read = ["func(iprot thrift.TProtocol) error", "if _, err := iprot.ReadStructBegin(); err != nil { return thrift.PrependError(fmt.Sprintf(\"%T read error: \", p), err) }", "var issetMetrics bool = false", "for { _, fieldTypeId, fieldId, err := iprot.ReadFieldBegin() if err != nil { return thrift.PrependError(fmt.Sprintf(\"%T field %d read error: \", p, fieldId), err) } if fieldTypeId == thrift.STOP { break } switch fieldId { case 1: if err := p.readField1(iprot); err != nil { return err } issetMetrics = true case 2: if err := p.readField2(iprot); err != nil { return err } default: if err := iprot.Skip(fieldTypeId); err != nil { return err } } if err := iprot.ReadFieldEnd(); err != nil { return err } }", "if err := iprot.ReadStructEnd(); err != nil { return thrift.PrependError(fmt.Sprintf(\"%T read struct end error: \", p), err) }", "if !issetMetrics { return thrift.NewTProtocolExceptionWithType(thrift.INVALID_DATA, fmt.Errorf(\"Required field Metrics is not set\")) }", "return nil"] := rfl
+
+theorem m3v2_MetricBatch_readField1_unchanged : Facts.m3v2_MetricBatch_readField1 = ["func(iprot thrift.TProtocol) error", "_, size, err := iprot.ReadListBegin()", "if err != nil { return thrift.PrependError(\"error reading list begin: \", err) }", "tSlice := make([]Metric, 0, size)", "p.Metrics = tSlice", "for i := 0; i < size; i++ { _elem1 := Metric{} if err := _elem1.Read(iprot); err != nil { return thrift.PrependError(fmt.Sprintf(\"%T error reading struct: \", _elem1), err) } p.Metrics = append(p.Metrics, _elem1) }", "if err := iprot.ReadListEnd(); err != nil { return thrift.PrependError(\"error reading list end: \", err) }", "return nil"] := rfl
+
+theorem m3v2_MetricBatch_readField2_unchanged : Facts.m3v2_MetricBatch_readField2 = ["func(iprot thrift.TProtocol) error", "_, size, err := iprot.ReadListBegin()", "if err != nil { return thrift.PrependError(\"error reading list begin: \", err) }", "tSlice := make([]MetricTag, 0, size)", "p.CommonTags = tSlice", "for i := 0; i < size; i++ { _elem2 := MetricTag{} if err := _elem2.Read(iprot); err != nil { return thrift.PrependError(fmt.Sprintf(\"%T error reading struct: \", _elem2), err) } p.CommonTags = append(p.CommonTags, _elem2) }", "if err := iprot.ReadListEnd(); err != nil { return thrift.PrependError(\"error reading list end: \", err) }", "return nil"] := rfl
+
+theorem m3v2_M3EmitMetricBatchV2Args_Read_unchanged : Facts.m3v2_M3EmitMetricBatchV2Args_Read = ["func(iprot thrift.TProtocol) error", "if _, err := iprot.ReadStructBegin(); err != nil { return thrift.PrependError(fmt.Sprintf(\"%T read error: \", p), err) }", "for { _, fieldTypeId, fieldId, err := iprot.ReadFieldBegin() if err != nil { return thrift.PrependError(fmt.Sprintf(\"%T field %d read error: \", p, fieldId), err) } if fieldTypeId == thrift.STOP { break } switch fieldId { case 1: if err := p.readField1(iprot); err != nil { return err } default: if err := iprot.Skip(fieldTypeId); err != nil { return err } } if err := iprot.ReadFieldEnd(); err != nil { return err } }", "if err := iprot.ReadStructEnd(); err != nil { return thrift.PrependError(fmt.Sprintf(\"%T read struct end error: \", p), err) }", "return nil"] := rfl
+
+theorem m3v2_M3EmitMetricBatchV2Args_readField1_unchanged : Facts.m3v2_M3EmitMetricBatchV2Args_readField1 = ["func(iprot thrift.TProtocol) error", "p.Batch = MetricBatch{}", "if err := p.Batch.Read(iprot); err != nil { return thrift.PrependError(fmt.Sprintf(\"%T error reading struct: \", p.Batch), err) }", "return nil"] := rfl
+
+theorem m3v2_M3Processor_AddToProcessorMap_unchanged : Facts.m3v2_M3Processor_AddToProcessorMap = ["func(key string, processor thrift.TProcessorFunction)", "p.processorMap[key] = processor"] := rfl
+
+theorem m3v2_M3Processor_GetProcessorFunction_unchanged : Facts.m3v2_M3Processor_GetProcessorFunction = ["func(key string) (processor thrift.TProcessorFunction, ok bool)", "processor, ok = p.processorMap[key]", "return processor, ok"] := rfl
+
+theorem m3v2_M3Processor_Process_unchanged : Facts.m3v2_M3Processor_Process = ["func(iprot, oprot thrift.TProtocol) (success bool, err thrift.TException)", "name, _, seqId, err := iprot.ReadMessageBegin()", "if err != nil { return false, err }", "if processor, ok := p.GetProcessorFunction(name); ok { return processor.Process(seqId, iprot, oprot) }", "iprot.Skip(thrift.STRUCT)", "iprot.ReadMessageEnd()", "x4 := thrift.NewTApplicationException(thrift.UNKNOWN_METHOD, \"Unknown function \"+name)", "oprot.WriteMessageBegin(name, thrift.EXCEPTION, seqId)", "x4.Write(oprot)", "oprot.WriteMessageEnd()", "oprot.Flush()", "return false, x4"] := rfl
+
+theorem m3v2_M3Processor_ProcessorMap_unchanged : Facts.m3v2_M3Processor_ProcessorMap = ["func() map[string]thrift.TProcessorFunction", "return p.processorMap"] := rfl
+
+theorem m3v2_m3ProcessorEmitMetricBatchV2_Process_unchanged : Facts.m3v2_m3ProcessorEmitMetricBatchV2_Process = ["func(seqId int32, iprot, oprot thrift.TProtocol) (success bool, err thrift.TException)", "args := M3EmitMetricBatchV2Args{}", "if err = args.Read(iprot); err != nil { iprot.ReadMessageEnd() return false, err }", "iprot.ReadMessageEnd()", "var err2 error", "if err2 = p.handler.EmitMetricBatchV2(args.Batch); err2 != nil { return true, err2 }", "return true, nil"] := rfl
+
+theorem calcTransport_bufferedRead_Close_unchanged : Facts.calcTransport_bufferedRead_Close = ["func() error", "return nil"] := rfl
+
+theorem calcTransport_bufferedRead_Flush_unchanged : Facts.calcTransport_bufferedRead_Flush = ["func() error", "return nil"] := rfl
+
+theorem calcTransport_bufferedRead_IsOpen_unchanged : Facts.calcTransport_bufferedRead_IsOpen = ["func() bool", "return true"] := rfl
+
+theorem calcTransport_bufferedRead_Open_unchanged : Facts.calcTransport_bufferedRead_Open = ["func() error", "return nil"] := rfl
+
+theorem calcTransport_bufferedRead_Read_unchanged : Facts.calcTransport_bufferedRead_Read = ["func(buf []byte) (int, error)", "in, err := p.readBuf.Read(buf)", "return in, thrift.NewTTransportExceptionFromError(err)"] := rfl
+
+theorem calcTransport_bufferedRead_RemainingBytes_unchanged : Facts.calcTransport_bufferedRead_RemainingBytes = ["func() uint64", "return uint64(p.readBuf.Len())"] := rfl
+
+theorem calcTransport_bufferedRead_Write_unchanged : Facts.calcTransport_bufferedRead_Write = ["func(buf []byte) (int, error)", "p.readBuf = bytes.NewBuffer(buf)", "return len(buf), nil"] := rfl
+
+theorem thriftCompact_ReadBinary_unchanged : Facts.thriftCompact_ReadBinary = ["func() (value []byte, err error)", "length, e := p.readVarint32()", "if e != nil { return nil, NewTProtocolException(e) }", "if length == 0 { return []byte{}, nil }", "if length < 0 { return nil, invalidDataLength }", "if uint64(length) > p.trans.RemainingBytes() { return nil, invalidDataLength }", "buf := make([]byte, length)", "_, e = io.ReadFull(p.trans, buf)", "return buf, NewTProtocolException(e)"] := rfl
+
+theorem thriftCompact_ReadBool_unchanged : Facts.thriftCompact_ReadBool = ["func() (value bool, err error)", "if p.boolValueIsNotNull { p.boolValueIsNotNull = false return p.boolValue, nil }", "v, err := p.readByteDirect()", "return v == COMPACT_BOOLEAN_TRUE, err"] := rfl
+
+theorem thriftCompact_ReadByte_unchanged : Facts.thriftCompact_ReadByte = ["func() (int8, error)", "v, err := p.readByteDirect()", "if err != nil { return 0, NewTProtocolException(err) }", "return int8(v), err"] := rfl
+
+theorem thriftCompact_ReadDouble_unchanged : Facts.thriftCompact_ReadDouble = ["func() (value float64, err error)", "longBits := p.buffer[0:8]", "_, e := io.ReadFull(p.trans, longBits)", "if e != nil { return 0.0, NewTProtocolException(e) }", "return math.Float64frombits(p.bytesToUint64(longBits)), nil"] := rfl
+
+theorem thriftCompact_ReadFieldBegin_unchanged : Facts.thriftCompact_ReadFieldBegin = ["func() (name string, typeId TType, id int16, err error)", "t, err := p.readByteDirect()", "if err != nil { return }", "if (t & 0x0f) == STOP { return \"\", STOP, 0, nil }", "modifier := int16((t & 0xf0) >> 4)", "if modifier == 0 { id, err = p.ReadI16() if err != nil { return } } else { id = int16(p.lastFieldId) + modifier }", "typeId, e := p.getTType(tCompactType(t & 0x0f))", "if e != nil { err = NewTProtocolException(e) return }", "if p.isBoolType(t) { p.boolValue = (byte(t)&0x0f == COMPACT_BOOLEAN_TRUE) p.boolValueIsNotNull = true }", "p.lastFieldId = int(id)", "return"] := rfl
+
+theorem thriftCompact_ReadFieldEnd_unchanged : Facts.thriftCompact_ReadFieldEnd = ["func() error", "return nil"] := rfl
+
+theorem thriftCompact_ReadI16_unchanged : Facts.thriftCompact_ReadI16 = ["func() (value int16, err error)", "v, err := p.ReadI32()", "return int16(v), err"] := rfl
+
+theorem thriftCompact_ReadI32_unchanged : Facts.thriftCompact_ReadI32 = ["func() (value int32, err error)", "v, e := p.readVarint32()", "if e != nil { return 0, NewTProtocolException(e) }", "value = p.zigzagToInt32(v)", "return value, nil"] := rfl
+
+theorem thriftCompact_ReadI64_unchanged : Facts.thriftCompact_ReadI64 = ["func() (value int64, err error)", "v, e := p.readVarint64()", "if e != nil { return 0, NewTProtocolException(e) }", "value = p.zigzagToInt64(v)", "return value, nil"] := rfl
+
+theorem thriftCompact_ReadListBegin_unchanged : Facts.thriftCompact_ReadListBegin = ["func() (elemType TType, size int, err error)", "size_and_type, err := p.readByteDirect()", "if err != nil { return }", "size = int((size_and_type >> 4) & 0x0f)", "if size == 15 { size2, e := p.readVarint32() if e != nil { err = NewTProtocolException(e) return } if size2 < 0 { err = invalidDataLength return } size = int(size2) }", "elemType, e := p.getTType(tCompactType(size_and_type))", "if e != nil { err = NewTProtocolException(e) return }", "return"] := rfl
+
+theorem thriftCompact_ReadListEnd_unchanged : Facts.thriftCompact_ReadListEnd = ["func() error", "return nil"] := rfl
+
+theorem thriftCompact_ReadMapBegin_unchanged : Facts.thriftCompact_ReadMapBegin = ["func() (keyType TType, valueType TType, size int, err error)", "size32, e := p.readVarint32()", "if e != nil { err = NewTProtocolException(e) return }", "if size32 < 0 { err = invalidDataLength return }", "size = int(size32)", "keyAndValueType := byte(STOP)", "if size != 0 { keyAndValueType, err = p.readByteDirect() if err != nil { return } }", "keyType, _ = p.getTType(tCompactType(keyAndValueType >> 4))", "valueType, _ = p.getTType(tCompactType(keyAndValueType & 0xf))", "return"] := rfl
+
+theorem thriftCompact_ReadMapEnd_unchanged : Facts.thriftCompact_ReadMapEnd = ["func() error", "return nil"] := rfl
+
+theorem thriftCompact_ReadMessageBegin_unchanged : Facts.thriftCompact_ReadMessageBegin = ["func() (name string, typeId TMessageType, seqId int32, err error)", "protocolId, err := p.readByteDirect()", "if err != nil { return }", "if protocolId != COMPACT_PROTOCOL_ID { e := fmt.Errorf(\"Expected protocol id %02x but got %02x\", COMPACT_PROTOCOL_ID, protocolId) return \"\", typeId, seqId, NewTProtocolExceptionWithType(BAD_VERSION, e) }", "versionAndType, err := p.readByteDirect()", "if err != nil { return }", "version := versionAndType & COMPACT_VERSION_MASK", "typeId = TMessageType((versionAndType >> COMPACT_TYPE_SHIFT_AMOUNT) & COMPACT_TYPE_BITS)", "if version != COMPACT_VERSION { e := fmt.Errorf(\"Expected version %02x but got %02x\", COMPACT_VERSION, version) err = NewTProtocolExceptionWithType(BAD_VERSION, e) return }", "seqId, e := p.readVarint32()", "if e != nil { err = NewTProtocolException(e) return }", "name, err = p.ReadString()", "return"] := rfl
+
+theorem thriftCompact_ReadMessageEnd_unchanged : Facts.thriftCompact_ReadMessageEnd = ["func() error", "return nil"] := rfl
+
+theorem thriftCompact_ReadSetBegin_unchanged : Facts.thriftCompact_ReadSetBegin = ["func() (elemType TType, size int, err error)", "return p.ReadListBegin()"] := rfl
+
+theorem thriftCompact_ReadSetEnd_unchanged : Facts.thriftCompact_ReadSetEnd = ["func() error", "return nil"] := rfl
+
+theorem thriftCompact_ReadString_unchanged : Facts.thriftCompact_ReadString = ["func() (value string, err error)", "length, e := p.readVarint32()", "if e != nil { return \"\", NewTProtocolException(e) }", "if length < 0 { return \"\", invalidDataLength }", "if uint64(length) > p.trans.RemainingBytes() { return \"\", invalidDataLength }", "if length == 0 { return \"\", nil }", "var buf []byte", "if length <= int32(len(p.buffer)) { buf = p.buffer[0:length] } else { buf = make([]byte, length) }", "_, e = io.ReadFull(p.trans, buf)", "return string(buf), NewTProtocolException(e)"] := rfl
+
+theorem thriftCompact_ReadStructBegin_unchanged : Facts.thriftCompact_ReadStructBegin = ["func() (name string, err error)", "p.lastField = append(p.lastField, p.lastFieldId)", "p.lastFieldId = 0", "return"] := rfl
+
+theorem thriftCompact_ReadStructEnd_unchanged : Facts.thriftCompact_ReadStructEnd = ["func() error", "p.lastFieldId = p.lastField[len(p.lastField)-1]", "p.lastField = p.lastField[:len(p.lastField)-1]", "return nil"] := rfl
+
+theorem thriftCompact_readByteDirect_unchanged : Facts.thriftCompact_readByteDirect = ["func() (byte, error)", "return p.trans.ReadByte()"] := rfl
+
+theorem thriftCompact_readVarint32_unchanged : Facts.thriftCompact_readVarint32 = ["func() (int32, error)", "v, err := p.readVarint64()", "return int32(v), err"] := rfl
+
+theorem thriftCompact_readVarint64_unchanged : Facts.thriftCompact_readVarint64 = ["func() (int64, error)", "shift := uint(0)", "result := int64(0)", "for { b, err := p.readByteDirect() if err != nil { return 0, err } result |= int64(b&0x7f) << shift if (b & 0x80) != 0x80 { break } shift += 7 }", "return result, nil"] := rfl
+
+theorem thriftBinary_ReadBinary_unchanged : Facts.thriftBinary_ReadBinary = ["func() ([]byte, error)", "size, e := p.ReadI32()", "if e != nil { return nil, e }", "if size < 0 { return nil, invalidDataLength }", "if uint64(size) > p.trans.RemainingBytes() { return nil, invalidDataLength }", "isize := int(size)", "buf := make([]byte, isize)", "_, err := io.ReadFull(p.trans, buf)", "return buf, NewTProtocolException(err)"] := rfl
+
+theorem thriftBinary_ReadBool_unchanged : Facts.thriftBinary_ReadBool = ["func() (bool, error)", "b, e := p.ReadByte()", "v := true", "if b != 1 { v = false }", "return v, e"] := rfl
+
+theorem thriftBinary_ReadByte_unchanged : Facts.thriftBinary_ReadByte = ["func() (int8, error)", "v, err := p.trans.ReadByte()", "return int8(v), err"] := rfl
+
+theorem thriftBinary_ReadDouble_unchanged : Facts.thriftBinary_ReadDouble = ["func() (value float64, err error)", "buf := p.buffer[0:8]", "err = p.readAll(buf)", "value = math.Float64frombits(binary.BigEndian.Uint64(buf))", "return value, err"] := rfl
+
+theorem thriftBinary_ReadFieldBegin_unchanged : Facts.thriftBinary_ReadFieldBegin = ["func() (name string, typeId TType, seqId int16, err error)", "t, err := p.ReadByte()", "typeId = TType(t)", "if err != nil { return name, typeId, seqId, err }", "if t != STOP { seqId, err = p.ReadI16() }", "return name, typeId, seqId, err"] := rfl
+
+theorem thriftBinary_ReadFieldEnd_unchanged : Facts.thriftBinary_ReadFieldEnd = ["func() error", "return nil"] := rfl
+
+theorem thriftBinary_ReadI16_unchanged : Facts.thriftBinary_ReadI16 = ["func() (value int16, err error)", "buf := p.buffer[0:2]", "err = p.readAll(buf)", "value = int16(binary.BigEndian.Uint16(buf))", "return value, err"] := rfl
+
+theorem thriftBinary_ReadI32_unchanged : Facts.thriftBinary_ReadI32 = ["func() (value int32, err error)", "buf := p.buffer[0:4]", "err = p.readAll(buf)", "value = int32(binary.BigEndian.Uint32(buf))", "return value, err"] := rfl
+
+theorem thriftBinary_ReadI64_unchanged : Facts.thriftBinary_ReadI64 = ["func() (value int64, err error)", "buf := p.buffer[0:8]", "err = p.readAll(buf)", "value = int64(binary.BigEndian.Uint64(buf))", "return value, err"] := rfl
+
+theorem thriftBinary_ReadListBegin_unchanged : Facts.thriftBinary_ReadListBegin = ["func() (elemType TType, size int, err error)", "b, e := p.ReadByte()", "if e != nil { err = NewTProtocolException(e) return }", "elemType = TType(b)", "size32, e := p.ReadI32()", "if e != nil { err = NewTProtocolException(e) return }", "if size32 < 0 { err = invalidDataLength return }", "size = int(size32)", "return"] := rfl
+
+theorem thriftBinary_ReadListEnd_unchanged : Facts.thriftBinary_ReadListEnd = ["func() error", "return nil"] := rfl
+
+theorem thriftBinary_ReadMapBegin_unchanged : Facts.thriftBinary_ReadMapBegin = ["func() (kType, vType TType, size int, err error)", "k, e := p.ReadByte()", "if e != nil { err = NewTProtocolException(e) return }", "kType = TType(k)", "v, e := p.ReadByte()", "if e != nil { err = NewTProtocolException(e) return }", "vType = TType(v)", "size32, e := p.ReadI32()", "if e != nil { err = NewTProtocolException(e) return }", "if size32 < 0 { err = invalidDataLength return }", "size = int(size32)", "return kType, vType, size, nil"] := rfl
+
+theorem thriftBinary_ReadMapEnd_unchanged : Facts.thriftBinary_ReadMapEnd = ["func() error", "return nil"] := rfl
+
+theorem thriftBinary_ReadMessageBegin_unchanged : Facts.thriftBinary_ReadMessageBegin = ["func() (name string, typeId TMessageType, seqId int32, err error)", "size, e := p.ReadI32()", "if e != nil { return \"\", typeId, 0, NewTProtocolException(e) }", "if size < 0 { typeId = TMessageType(size & 0x0ff) version := int64(int64(size) & VERSION_MASK) if version != VERSION_1 { return name, typeId, seqId, NewTProtocolExceptionWithType(BAD_VERSION, fmt.Errorf(\"Bad version in ReadMessageBegin\")) } name, e = p.ReadString() if e != nil { return name, typeId, seqId, NewTProtocolException(e) } seqId, e = p.ReadI32() if e != nil { return name, typeId, seqId, NewTProtocolException(e) } return name, typeId, seqId, nil }", "if p.strictRead { return name, typeId, seqId, NewTProtocolExceptionWithType(BAD_VERSION, fmt.Errorf(\"Missing version in ReadMessageBegin\")) }", "name, e2 := p.readStringBody(size)", "if e2 != nil { return name, typeId, seqId, e2 }", "b, e3 := p.ReadByte()", "if e3 != nil { return name, typeId, seqId, e3 }", "typeId = TMessageType(b)", "seqId, e4 := p.ReadI32()", "if e4 != nil { return name, typeId, seqId, e4 }", "return name, typeId, seqId, nil"] := rfl
+
+theorem thriftBinary_ReadMessageEnd_unchanged : Facts.thriftBinary_ReadMessageEnd = ["func() error", "return nil"] := rfl
+
+theorem thriftBinary_ReadSetBegin_unchanged : Facts.thriftBinary_ReadSetBegin = ["func() (elemType TType, size int, err error)", "b, e := p.ReadByte()", "if e != nil { err = NewTProtocolException(e) return }", "elemType = TType(b)", "size32, e := p.ReadI32()", "if e != nil { err = NewTProtocolException(e) return }", "if size32 < 0 { err = invalidDataLength return }", "size = int(size32)", "return elemType, size, nil"] := rfl
+
+theorem thriftBinary_ReadSetEnd_unchanged : Facts.thriftBinary_ReadSetEnd = ["func() error", "return nil"] := rfl
+
+theorem thriftBinary_ReadString_unchanged : Facts.thriftBinary_ReadString = ["func() (value string, err error)", "size, e := p.ReadI32()", "if e != nil { return \"\", e }", "if size < 0 { err = invalidDataLength return }", "return p.readStringBody(size)"] := rfl
+
+theorem thriftBinary_ReadStructBegin_unchanged : Facts.thriftBinary_ReadStructBegin = ["func() (name string, err error)", "return"] := rfl
+
+theorem thriftBinary_ReadStructEnd_unchanged : Facts.thriftBinary_ReadStructEnd = ["func() error", "return nil"] := rfl
+
+theorem thriftBinary_readAll_unchanged : Facts.thriftBinary_readAll = ["func(buf []byte) error", "_, err := io.ReadFull(p.reader, buf)", "return NewTProtocolException(err)"] := rfl
+
+theorem thriftBinary_readStringBody_unchanged : Facts.thriftBinary_readStringBody = ["func(size int32) (value string, err error)", "if size < 0 { return \"\", nil }", "if uint64(size) > p.trans.RemainingBytes() { return \"\", invalidDataLength }", "var ( buf bytes.Buffer e error b []byte )", "switch { case int(size) <= len(p.buffer): b = p.buffer[:size] case int(size) < readLimit: b = make([]byte, size) default: b = make([]byte, readLimit) }", "for size > 0 { _, e = io.ReadFull(p.trans, b) buf.Write(b) if e != nil { break } size -= readLimit if size < readLimit && size > 0 { b = b[:size] } }", "return buf.String(), NewTProtocolException(e)"] := rfl
+
 theorem body_m3__NewReporter_unchanged : Facts.body_m3__NewReporter = ["func(opts Options) (Reporter, error)", "if opts.MaxQueueSize <= 0 { opts.MaxQueueSize = DefaultMaxQueueSize }", "if opts.MaxPacketSizeBytes <= 0 { opts.MaxPacketSizeBytes = DefaultMaxPacketSize }", "if opts.HistogramBucketIDName == \"\" { opts.HistogramBucketIDName = DefaultHistogramBucketIDName }", "if opts.HistogramBucketName == \"\" { opts.HistogramBucketName = DefaultHistogramBucketName }", "if opts.HistogramBucketTagPrecision == 0 { opts.HistogramBucketTagPrecision = DefaultHistogramBucketTagPrecision }", "var trans thrift.TTransport", "var err error", "if len(opts.HostPorts) == 0 { err = errNoHostPorts } else if len(opts.HostPorts) == 1 { trans, err = thriftudp.NewTUDPClientTransport(opts.HostPorts[0], \"\") } else { trans, err = thriftudp.NewTMultiUDPClientTransport(opts.HostPorts, \"\") }", "if err != nil { return nil, err }", "var protocolFactory thrift.TProtocolFactory", "if opts.Protocol == Compact { protocolFactory = thrift.NewTCompactProtocolFactory() } else { protocolFactory = thrift.NewTBinaryProtocolFactoryDefault() }", "var ( client = m3thrift.NewM3ClientFactory(trans, protocolFactory) resourcePool = newResourcePool(protocolFactory) tagm = make(map[string]string) tags = resourcePool.getMetricTagSlice() )", "for k, v := range opts.CommonTags", "| tagm[k] = v", "if opts.CommonTags[ServiceTag] == \"\" { if opts.Service == \"\" { return nil, fmt.Errorf(\"%s common tag is required\", ServiceTag) } tagm[ServiceTag] = opts.Service }", "if opts.CommonTags[EnvTag] == \"\" { if opts.Env == \"\" { return nil, fmt.Errorf(\"%s common tag is required\", EnvTag) } tagm[EnvTag] = opts.Env }", "if opts.IncludeHost { if opts.CommonTags[HostTag] == \"\" { hostname, err := os.Hostname() if err != nil { return nil, errors.WithMessage(err, \"error resolving host tag\") } tagm[HostTag] = hostname } }", "for k, v := range tagm", "| tags = append(tags, m3thrift.MetricTag{ Name: k, Value: v, })", "var ( batch = m3thrift.MetricBatch{ Metrics: resourcePool.getMetricSlice(), CommonTags: tags, } proto = resourcePool.getProto() )", "if err := batch.Write(proto); err != nil { return nil, errors.WithMessage( err, \"failed to write to proto for size calculation\", ) }", "resourcePool.releaseMetricSlice(batch.Metrics)", "var ( calc = proto.Transport().(*customtransport.TCalcTransport) numOverheadBytes = _emitMetricBatchOverhead + calc.GetCount() freeBytes = opts.MaxPacketSizeBytes - numOverheadBytes )", "calc.ResetCount()", "if freeBytes <= 0 { return nil, errCommonTagSize }", "buckets := tally.ValueBuckets(append( []float64{0.0}, tally.MustMakeExponentialValueBuckets(2.0, 2.0, 11)..., ))", "r := &reporter{ buckets: tally.BucketPairs(buckets), bucketIDTagName: opts.HistogramBucketIDName, bucketTagName: opts.HistogramBucketName, bucketValFmt: \"%.\" + strconv.Itoa(int(opts.HistogramBucketTagPrecision)) + \"f\", calc: calc, calcProto: proto, client: client, commonTags: tags, donech: make(chan struct{}), freeBytes: freeBytes, metCh: make(chan sizedMetric, opts.MaxQueueSize), overheadBytes: numOverheadBytes, resourcePool: resourcePool, stringInterner: cache.NewStringInterner(), tagCache: cache.NewTagCache(), }", "internalTags := map[string]string{ \"version\": tally.Version, \"host\": tally.DefaultTagRedactValue, \"instance\": tally.DefaultTagRedactValue, }", "for k, v := range opts.InternalTags", "| internalTags[k] = v", "r.now.Store(time.Now().UnixNano())", "r.batchSizeHistogram = r.AllocateHistogram(\"tally.internal.batch-size\", internalTags, buckets)", "r.numBatchesCounter = r.AllocateCounter(\"tally.internal.num-batches\", internalTags)", "r.numMetricsCounter = r.AllocateCounter(\"tally.internal.num-metrics\", internalTags)", "r.numWriteErrorsCounter = r.AllocateCounter(\"tally.internal.num-write-errors\", internalTags)", "r.numTagCacheCounter = r.AllocateCounter(\"tally.internal.num-tag-cache\", internalTags)", "r.wg.Add(1)", "go func() { defer r.wg.Done() r.process() }()", "r.wg.Add(1)", "go func() { defer r.wg.Done() r.timeLoop() }()", "return r, nil"] := rfl
 
 theorem body_m3__newResourcePool_unchanged : Facts.body_m3__newResourcePool = ["func(protoFac thrift.TProtocolFactory) *resourcePool", "metricSlicePool := tally.NewObjectPool(batchPoolSize)", "metricSlicePool.Init(func() interface{} { return make([]m3thrift.Metric, 0, batchPoolSize) })", "metricTagSlicePool := tally.NewObjectPool(DefaultMaxQueueSize)", "metricTagSlicePool.Init(func() interface{} { return make([]m3thrift.MetricTag, 0, batchPoolSize) })", "protoPool := tally.NewObjectPool(protoPoolSize)", "protoPool.Init(func() interface{} { return protoFac.GetProtocol(&customtransport.TCalcTransport{}) })", "return &resourcePool{ metricSlicePool: metricSlicePool, metricTagSlicePool: metricTagSlicePool, protoPool: protoPool, }"] := rfl
